@@ -7,11 +7,15 @@
       item {"k":"abs","p":s}     -> {"abs":s}
       item {"k":"cp","l":[s…]}   -> {"cp":s}
       item {"k":"search","s":s}  -> {"bad":bool}
-    {"m":"C20.run","cfg":{…},"missing":[paths],"script":[reply|null …],"reqs":[…]}
-      -> {"resps":[…],"store":[[key,[msgs]]…],"loads":[…],"cache":[[key,[paths]]…]}
+    {"m":"C20.run","cfg":{…,"store0":[[key,[msgs]]…]},"missing":[paths],"script":[reply|null …],"reqs":[item…]}
+      item = request object | {"op":"set"|"append","key":k,"msgs":[…]} | {"op":"del","key":k} | {"op":"take","key":k,"n":n} | {"op":"redact","key":k}
+             | {"op":"swap","store":[[key,[msgs]]…]} | {"op":"proc","i":n} | {"op":"restart"} | {"op":"evict","key":k}
+      (`script` is indexed by the ordinal of the request among the requests)
+      -> {"resps":[… one per item, {"r":"op"} for operations],"store":[[key,[msgs]]…],"loads":[…],
+          "caches":[[proc,[[key,[paths]]…]]…]}
 -/
 import NemoVerif.Drive.Common
-import NemoVerif.Models.Server
+import NemoVerif.Models.ServerOps
 
 namespace NemoVerif.Drive.C20
 open Lean NemoVerif NemoVerif.Drive NemoVerif.Server
@@ -85,6 +89,49 @@ def respToJson : Resp Json → Json
   | .ok reply used served => Json.mkObj [("r", "ok"), ("reply", reply), ("used", Json.arr used.toArray),
       ("served", Json.arr (served.map js).toArray)]
 
+/-- `[[key,[msgs]]…]` -> store (first binding wins, as in `lookup`). -/
+def storeOfJson (j : Json) : Except String (List (Str × List Json)) := do
+  let a ← j.getArr?
+  a.toList.mapM fun e => do
+    let kv ← e.getArr?
+    match kv.toList with
+    | [k, v] => do
+      let ks ← k.getStr?
+      let msgs ← v.getArr?
+      pure (ks.toList, msgs.toList)
+    | _ => throw "bad store entry"
+
+/-- an operator blanks the text of a message: `content` (a string) becomes as many `#`. -/
+def redactMsg (m : Json) : Json :=
+  match m with
+  | .obj _ =>
+    match m.getObjVal? "content" with
+    | .ok (.str c) => m.setObjVal! "content" (.str (String.ofList (List.replicate c.toList.length '#')))
+    | _ => m
+  | _ => m
+
+def opOfJson (j : Json) : Except String (Op Json) := do
+  match j.getObjVal? "op" with
+  | .ok (.str o) =>
+    match o with
+    | "set" =>
+      let msgs ← (← j.getObjVal? "msgs").getArr?
+      pure (.ext (← strOf j "key") (fun _ => some msgs.toList))
+    | "append" =>
+      let msgs ← (← j.getObjVal? "msgs").getArr?
+      pure (.ext (← strOf j "key") (fun v => some (v.getD [] ++ msgs.toList)))
+    | "del" => pure (.ext (← strOf j "key") (fun _ => none))
+    | "take" =>
+      let n ← (← j.getObjVal? "n").getNat?
+      pure (.ext (← strOf j "key") (fun v => v.map (·.take n)))
+    | "redact" => pure (.ext (← strOf j "key") (fun v => v.map (·.map redactMsg)))
+    | "swap" => pure (.swap (← storeOfJson (← j.getObjVal? "store")))
+    | "proc" => pure (.proc (← (← j.getObjVal? "i").getNat?))
+    | "restart" => pure .restart
+    | "evict" => pure (.evict (← strOf j "key"))
+    | _ => throw s!"bad op {o}"
+  | _ => do pure (.req (← reqOfJson j))
+
 /-- the visible content of the store: first binding of every key, in order of first appearance. -/
 def storeView (st : List (Str × List Json)) : List (Str × List Json) :=
   st.foldl (fun acc kv => if acc.any (·.1 == kv.1) then acc else acc ++ [kv]) []
@@ -98,22 +145,29 @@ def handle (op : String) (j : Json) : Except String Json := do
     let outs ← items.toList.mapM (fnItem root cwd)
     pure (Json.mkObj [("out", Json.arr outs.toArray)])
   | "run" =>
-    let cfg ← cfgOfJson (← j.getObjVal? "cfg")
+    let cfgJ ← j.getObjVal? "cfg"
+    let cfg ← cfgOfJson cfgJ
+    let store0 ← match cfgJ.getObjVal? "store0" with
+      | .ok (.arr a) => storeOfJson (.arr a)
+      | _ => pure []
     let missing ← strList (← j.getObjVal? "missing")
     let script ← (← j.getObjVal? "script").getArr?
-    let reqsJ ← (← j.getObjVal? "reqs").getArr?
-    let reqs ← reqsJ.toList.mapM reqOfJson
+    let itemsJ ← (← j.getObjVal? "reqs").getArr?
+    let ops ← itemsJ.toList.mapM opOfJson
     let gen : Gen Json := fun turn _ _ =>
       match script[turn - 1]? with
       | some .null => none
       | some v => some v
       | none => none
-    let (resps, s) := run cfg (fun p => !missing.contains p) gen ({} : State Json) reqs
+    let w0 : World Json := { st := { store := store0 } }
+    let (resps, w) := runOps cfg (fun p => !missing.contains p) gen w0 ops
+    let procs := ((w.cur :: w.parked.map (·.1)).eraseDups).mergeSort (· ≤ ·)
+    let cacheJ (c : Cache) : Json := Json.arr (c.reverse.map fun (k, v) => Json.arr #[js k, Json.arr (v.map js).toArray]).toArray
     pure (Json.mkObj [
-      ("resps", Json.arr (resps.map respToJson).toArray),
-      ("store", Json.arr ((storeView s.store).map fun (k, v) => Json.arr #[js k, Json.arr v.toArray]).toArray),
-      ("loads", Json.arr (s.loads.map js).toArray),
-      ("cache", Json.arr (s.cache.reverse.map fun (k, v) => Json.arr #[js k, Json.arr (v.map js).toArray]).toArray)])
+      ("resps", Json.arr (resps.map fun a => match a with | some a => respToJson a | none => Json.mkObj [("r", "op")]).toArray),
+      ("store", Json.arr ((storeView w.st.store).map fun (k, v) => Json.arr #[js k, Json.arr v.toArray]).toArray),
+      ("loads", Json.arr (w.st.loads.map js).toArray),
+      ("caches", Json.arr (procs.map fun i => Json.arr #[Json.num (i : Nat), cacheJ (w.cacheOf i)]).toArray)])
   | _ => throw s!"unknown op C20.{op}"
 
 end NemoVerif.Drive.C20
